@@ -1,2 +1,2 @@
 import LdkModel.Driver.C06
-def main (args : List String) : IO UInt32 := Ldk.Driver.runMain [("c06bump", Ldk.Driver.c06bump), ("c06justice", Ldk.Driver.c06justice)] args
+def main (args : List String) : IO UInt32 := Ldk.Driver.runMain [("c06bump", Ldk.Driver.c06bump), ("c06justice", Ldk.Driver.c06justice), ("c06scope", Ldk.Driver.c06scope)] args
